@@ -132,3 +132,11 @@ func MaxAlloc(reset bool) int { return 0 }
 
 // OverrideIfPresent: like Override, for a library function the current tree may not call at all.
 func OverrideIfPresent(name string, f interface{}) {}
+
+// FieldSpec: "<declaration index>|<asn1 struct tag>" of the named field of v's dynamic struct type (pointers
+// dereferenced) as declared in the current source; "" when there is no such field. FieldCount: its number of fields.
+func FieldSpec(v interface{}, name string) string { return "" }
+func FieldCount(v interface{}) int              { return 0 }
+
+// OutOfDate: the harness no longer matches the code under test (reported as INCONCLUSIVE, never as a pass)
+func OutOfDate(what string) {}
